@@ -173,8 +173,18 @@ def rq_slice(case, ctx):
             out.append({"rs": rs, "cs": cs, "shape": [int(sp.shape[0]), int(sp.shape[1])],
                         "sparse": [[int(r), int(cc), int(x)] for r, cc, x in zip(sp.row, sp.col, sp.data)],
                         "rnorm": [int(rn[0]), int(rn[1])], "cnorm": [int(cn[0]), int(cn[1])]})
-        return out
-    return {"q": _with_cooler(case, path, run)}
+        oob = []
+        for rs, cs in case.get("oob_keys", []):
+            # bounds beyond the table / reversed ranges: what an array selects is well defined (clipping; empty)
+            try:
+                sp = sel[_spell(rs), _spell(cs)]
+                oob.append({"rs": rs, "cs": cs, "err": "", "shape": [int(sp.shape[0]), int(sp.shape[1])],
+                            "sparse": [[int(r), int(cc), int(x)] for r, cc, x in zip(sp.row, sp.col, sp.data)]})
+            except Exception as ex:
+                oob.append({"rs": rs, "cs": cs, "err": type(ex).__name__, "shape": [0, 0], "sparse": []})
+        return out, oob
+    out, oob = _with_cooler(case, path, run)
+    return {"q": out, "q_oob": oob} if "oob_keys" in case else {"q": out}
 
 
 SC = 8   # results are scaled by 2^SC (RangeQuery!SC)
